@@ -15,14 +15,16 @@ open Tranp Tranp.Lark Tranp.Quote Tranp.Hull
 /-- The quotation printed for a node whose span is `(bl, bc)..(el, ec)` (1-based, as recorded): the label is line `bl`,
     the quoted text is the loaded line `bl`, and the carets occupy exactly the columns `[bc−1, ec−1)` of it when the span
     is on one line (one caret when the span is empty) and `[bc−1, len line)` when it continues on later lines. -/
-theorem mark (fp content line : Str) (bl bc el ec : Int) (hbc : 1 ≤ bc)
+theorem mark (fp content line : Str) (bl bc el ec : Int) (hbl : 1 ≤ bl) (hbc : 1 ≤ bc)
     (hline : loadLine content (bl - 1) = .ok line) :
     ∃ m, buildQuotation true fp content (.ok ⟨some bl, some bc, some el, some ec⟩)
           = .ok [sViaNode, sIndent2 ++ fp ++ [':'] ++ Str.intToDec bl, sQuote ++ line, sMarkIndent ++ m]
       ∧ markedCols m = List.range' (bc - 1).toNat
           (if bl = el then max 1 (ec - bc) else max 1 ((line.length : Int) - (bc - 1))).toNat := by
   refine ⟨lineMark (causeRange line ⟨bl - 1, bc - 1, el - 1, ec - 1⟩), ?_, ?_⟩
-  · simp [buildQuotation, shift, dec1, quotationBuild, hline, bind, Except.bind, pure, Except.pure]
+  · have h0 : ¬ bl < 1 := by omega
+    have h0' : ¬ bc < 1 := by omega
+    simp [buildQuotation, lt1, h0, h0', shift, dec1, quotationBuild, hline, bind, Except.bind, pure, Except.pure]
   · have h1 : (bl - 1 = el - 1) = (bl = el) := by apply propext; constructor <;> intro h <;> omega
     simp only [causeRange, h1]
     split
@@ -36,8 +38,8 @@ example :
     ∧ markedCols (lineMark (causeRange [' ', 'x', ' ', '=', ' ', 'a', ' ', '+', ' ', '1'] ⟨1 - 1, 6 - 1, 1 - 1, 11 - 1⟩)) = [5, 6, 7, 8, 9] := by
   exact ⟨rfl, by decide⟩
 
-/-- What the property demands of the report printed for a node with recorded span `sm`: it exists, is labelled with the
-    span's begin line — a line of the file — quotes that line and marks the span's columns. -/
+/-- What the property demands of the report printed for a node with recorded span `sm`: it is labelled with the span's
+    begin line — a line of the file — quotes that line and marks the span's columns. -/
 def PointsAt (fp content : Str) (sm : SM) (ls : List Str) : Prop :=
   ∃ (bl bc el ec : Int) (line m : Str), sm = ⟨some bl, some bc, some el, some ec⟩ ∧ 1 ≤ bl
     ∧ loadLine content (bl - 1) = .ok line
@@ -45,39 +47,39 @@ def PointsAt (fp content : Str) (sm : SM) (ls : List Str) : Prop :=
     ∧ markedCols m = List.range' (bc - 1).toNat
         (if bl = el then max 1 (ec - bc) else max 1 ((line.length : Int) - (bc - 1))).toNat
 
-/-- The unguarded statement: whatever span `Nodes.source_map` reports, the quotation points at it. -/
-def quotation_statement : Prop :=
-  ∀ (fp content : Str) (sm : SM), ∃ ls, buildQuotation true fp content (.ok sm) = .ok ls ∧ PointsAt fp content sm ls
+/-- A node without a source position (begin line or begin column below 1 — in particular the span (0,0)..(0,0) of
+    placeholders and of trees without tokens) is reported without any quotation (fix dc3e568; before it the last line of
+    the file was quoted as "line 0"). Regression witness: corpus/C16/spanless-node.json. -/
+theorem quotation_spanless (fp content : Str) (bl bc : Int) (el ec : Pos) (h : bl < 1 ∨ bc < 1) :
+    buildQuotation true fp content (.ok ⟨some bl, some bc, el, ec⟩) = .ok [] := by
+  by_cases h1 : bl < 1
+  · simp [buildQuotation, lt1, h1, bind, Except.bind, pure, Except.pure]
+  · have h2 : bc < 1 := by omega
+    simp [buildQuotation, lt1, h1, h2, bind, Except.bind, pure, Except.pure]
 
-/-- The proved part: spans with four integer positions, begin line inside the file, begin column ≥ 1. -/
-theorem quotation_partial (fp content line : Str) (bl bc el ec : Int) (hbl : 1 ≤ bl) (hbc : 1 ≤ bc)
-    (hline : loadLine content (bl - 1) = .ok line) :
+example : buildQuotation true ['m'] ['x', '\n', 'y', '\n'] (.ok SM.zero) = .ok [] := rfl
+
+/-- The whole statement for spans with integer positions (everything the parser records and the cache restores): the
+    report is empty exactly for nodes without a position and otherwise points at the span, whenever the span's begin
+    line is a line of the file. -/
+theorem quotation (fp content : Str) (bl bc el ec : Int)
+    (hfile : 1 ≤ bl → ∃ line, loadLine content (bl - 1) = .ok line) :
     ∃ ls, buildQuotation true fp content (.ok ⟨some bl, some bc, some el, some ec⟩) = .ok ls
-      ∧ PointsAt fp content ⟨some bl, some bc, some el, some ec⟩ ls := by
-  obtain ⟨m, h1, h2⟩ := mark fp content line bl bc el ec hbc hline
-  exact ⟨_, h1, bl, bc, el, ec, line, m, rfl, hbl, hline, rfl, h2⟩
+      ∧ ((ls = [] ∧ (bl < 1 ∨ bc < 1)) ∨ PointsAt fp content ⟨some bl, some bc, some el, some ec⟩ ls) := by
+  by_cases h : bl < 1 ∨ bc < 1
+  · exact ⟨[], quotation_spanless fp content bl bc _ _ h, Or.inl ⟨rfl, h⟩⟩
+  · have hbl : 1 ≤ bl := by omega
+    have hbc : 1 ≤ bc := by omega
+    obtain ⟨line, hline⟩ := hfile hbl
+    obtain ⟨m, h1, h2⟩ := mark fp content line bl bc el ec hbl hbc hline
+    exact ⟨_, h1, Or.inr ⟨bl, bc, el, ec, line, m, rfl, hbl, hline, rfl, h2⟩⟩
 
 example : loadLine ['x', '\n'] (1 - 1) = .ok ['x'] := rfl
 
-/-- The unguarded statement is false on the current code: a node without tokens reports the span (0,0)..(0,0), and the
-    report that is printed for it (`Quotation` reads `lines[-1]`) is labelled line 0 — not a line of the file.
-    Witness replayed on the real code: corpus/C16/spanless-node.json (search key `quotation-spanless-node`). -/
-theorem quotation_counterexample : ¬ quotation_statement := by
-  intro h
-  obtain ⟨ls, _, bl, bc, el, ec, line, m, hsm, hbl, _⟩ := h ['m'] ['x', '\n'] SM.zero
-  simp only [SM.zero, SM.mk.injEq, Option.some.injEq] at hsm
-  omega
-
-/-- what is actually printed for the span-less node of the counterexample: the last line, one caret, label 0 -/
-theorem quotation_counterexample_spanless :
-    (buildQuotation true ['m'] ['x', '\n', 'y', '\n'] (.ok SM.zero)).toOption.map (fun ls => ls.drop 2)
-      = some [sQuote ++ ['y'], sMarkIndent ++ ['^']] := by
-  decide
-
-/-- second witness: a span whose end is `None` (a node closed by end-of-input dedents) makes the report itself fail.
-    Witness replayed on the real code: corpus/C16/eof-dedent-span.json (search keys `span-none:eof-dedent`,
-    `quotation-raises:TypeError:span-none`). -/
-theorem quotation_counterexample_none (fp content : Str) :
+/-- Positions must be integers: a span whose end is `None` still makes the report raise `TypeError`. Such spans came from
+    end-of-input dedents and no longer occur since the parser completes the last line (fix 46d0462); the search reports
+    any `None` position as a failure. Regression witness: corpus/C16/eof-dedent-span.json. -/
+theorem quotation_none_end (fp content : Str) :
     buildQuotation true fp content (.ok ⟨some 1, some 1, none, none⟩) = .error .typeError := rfl
 
 /-- Columns are preserved by loading: the quoted line is line `bl` of the file (the `bl`-th piece of `readlines`, which is
